@@ -161,7 +161,24 @@ func scenarios(tier string) []engine.Scenario {
 		tg := tg
 		for _, ratio := range ratioCycle {
 			ratio := ratio
-			add := func(family string, sets []diagSet, bound int, entries []int) {
+			var add func(family string, sets []diagSet, bound int, entries []int)
+			// families are split into scenarios of similar cost (the engine distributes scenarios, not leaves)
+			addSplit := func(family string, sets []diagSet, bound int, entries []int) {
+				per := map[int]int{0: 1, 1: 15, 2: 100}[bound] * len(entries)
+				chunk := 6000/per + 1
+				if len(sets) <= chunk {
+					add(family, sets, bound, entries)
+					return
+				}
+				for lo, part := 0, 0; lo < len(sets); lo, part = lo+chunk, part+1 {
+					hi := lo + chunk
+					if hi > len(sets) {
+						hi = len(sets)
+					}
+					add(fmt.Sprintf("%s.%d", family, part), sets[lo:hi], bound, entries)
+				}
+			}
+			add = func(family string, sets []diagSet, bound int, entries []int) {
 				if len(sets) == 0 {
 					return
 				}
@@ -193,23 +210,7 @@ func scenarios(tier string) []engine.Scenario {
 				case size == 3 && !thorough:
 					bound, entries = 0, coreEntries
 				}
-				// large families are split so that scenarios have similar cost
-				parts := 1
-				if len(sets) > 1000 {
-					parts = 4
-				}
-				q := (len(sets) + parts - 1) / parts
-				for part := 0; part < parts; part++ {
-					lo, hi := part*q, (part+1)*q
-					if hi > len(sets) {
-						hi = len(sets)
-					}
-					fam := fmt.Sprintf("subsets%d", size)
-					if parts > 1 {
-						fam = fmt.Sprintf("subsets%d.%d", size, part)
-					}
-					add(fam, toSets("sub", sets[lo:hi]), bound, entries)
-				}
+				addSplit(fmt.Sprintf("subsets%d", size), toSets("sub", sets), bound, entries)
 			}
 			if tg.dense {
 				var ds []diagSet
@@ -220,12 +221,12 @@ func scenarios(tier string) []engine.Scenario {
 				}
 				add("dense", ds, 0, []int{eEvaluateNew, eEvaluate, eMany2, eSeqNew2})
 			} else if tier == "thorough" {
-				add("structured", structuredSets(tg.n), 2, allEntries)
+				addSplit("structured", structuredSets(tg.n), 2, allEntries)
 			} else {
-				add("structured", structuredSets(tg.n), 1, allEntries)
+				addSplit("structured", structuredSets(tg.n), 1, allEntries)
 			}
 			if tier == "thorough" && tg.n == 8 && !tg.lite {
-				add("powerset", toSets("pow", powerSetNonNeg(8)), 2, allEntries)
+				addSplit("powerset", toSets("pow", powerSetNonNeg(8)), 2, allEntries)
 			}
 		}
 	}
